@@ -4,9 +4,22 @@
    spec side  (code bit 2): no call has class 9 and no batch died from a signal / abnormal exit;
    model side (code bit 1): for the plain bitvector, RawVector, IntVector and the mask functions the same call
    is replayed on the model in the build's mode and on the build's select path and must end the same way
-   (same value, same panic class, or OOB <-> 9). *)
+   (same value, same panic class, or OOB <-> 9).
+   CRawSet: set_bit with any offset (inside, in the unused bits of the last word, beyond the words) on a copy,
+   then BitVector::from of the copy and its iterators: the model keeps the state after a refused call.
+   Memory-mapped views (CMapped / CMGet): real files made of library-serialized values are mapped and every view
+   type is requested at every offset; for a view `new` returned the harness records map_offset, map_len, the claimed
+   data length, whether the claimed range lies inside the mapping, and the outcome of touching its first and last
+   element.
+   spec side: no returned view claims a range beyond the file (recomputed here from the file, the requested offset
+   and the claimed length - not from the model), no touch and no `new` ends in the hook;
+   model side: [view_new] of Model/Mapped.v on the same file and offset in the build's mode ends the same way
+   (Ok with the same offset / length / claimed length, Err of the same kind, panic of the same class), and every touch
+   ends like the model's accessor. *)
 From Coq Require Import NArith List Bool.
 Require Import SDS.Model.Mach SDS.Model.Bits SDS.Model.Raw SDS.Model.IntVec SDS.Model.BitVec.
+Require Export SDS.Model.Mapped.   (* the case files name the view types *)
+Require Import SDS.Model.MappedGet.
 Require Import SDS.Check.Common.
 Import ListNotations.
 Open Scope N_scope.
@@ -51,6 +64,16 @@ Inductive icall :=
 | IResize (n v : N) (o : ires unit)
 | IPack (o : ires unit).
 
+(* what one `T::new(&map, offset)` did. Err kinds: 1 = UnexpectedEof, 2 = InvalidData, 0 = any other.
+   touch = (accessor, index, outcome): accessor 0 = `view[index]` (slices, bytes, the bytes of a string),
+   1 = word(index) of a raw mapper / of the raw mapper inside an integer-vector mapper, 2 = bit(index),
+   3 = get(index) of an integer-vector mapper; through a MappedOption the accessors are those of the value *)
+Definition mtouch : Type := (N * N * ires unit)%type.
+Inductive mobs :=
+| MErr (kind : N)
+| MPanic (k : N)
+| MOk (map_offset map_len : ires N) (claimed : N) (inside : bool) (touch : list mtouch).
+
 Inductive case :=
 (* path: 0 = BMI2 build, 1 = portable; dbg: overflow checks on; sup: enabled supports (1 rank + 2 select + 4 select_zero) *)
 | CBV (path : N) (dbg : bool) (sup : N) (len : N) (words : list N) (calls : list bcall)
@@ -61,6 +84,14 @@ Inductive case :=
 (* structures without a model here (sparse, run-length, wavelet matrix, builders, loaded copies):
    outcome class per call, 0 = returned, k = panic class *)
 | COther (kind : N) (classes : list N)
+(* RawVector (len, words): set_bit(i, v) on a copy with outcome o, then BitVector::from of that same copy (unchanged
+   when the call panicked) and iterator calls on it *)
+| CRawSet (path : N) (dbg : bool) (len : N) (words : list N) (i : N) (v : bool) (o : ires unit) (calls : list bcall)
+(* one mapped file, one view type, every requested offset *)
+| CMapped (dbg : bool) (file : list N) (ty : vtype) (views : list (N * mobs))
+(* IntVectorMapper (opt: inside a MappedOption) at offset [off] of the file whose width element is above 64,
+   a width no serializer writes: get(index) for some index < len *)
+| CMGet (dbg : bool) (file : list N) (opt : bool) (off : N) (gets : list (N * ires unit))
 (* the batch's process died: status = signal number, or 1000 + exit code, or 2000 = result file incomplete *)
 | CDied (kind : N) (status : N).
 
@@ -210,6 +241,83 @@ Definition spec_mask (c : bool * N * ires N) : bool :=
   | IPanic k => (64 <? n) && negb (k =? 9)
   end.
 
+(* ---- memory-mapped views ---- *)
+
+Definition ek_code (k : ekind) : N := match k with UnexpectedEof => 1 | InvalidData => 2 end.
+
+(* the data length a view claims: items of a slice, bytes, words of a mapper; of the value through an option *)
+Fixpoint claimed_of (v : view) : N :=
+  match v with
+  | VwVec s | VwPairs s => ms_len s
+  | VwBytes b | VwStr b => mb_len b
+  | VwRaw r => ms_len (rm_data r)
+  | VwInt i => ms_len (rm_data (im_data i))
+  | VwOpt o => match mo_data o with Some v' => claimed_of v' | None => 0 end
+  end.
+
+Fixpoint touch_model (m : mode) (v : view) (acc i : N) : res unit :=
+  match v with
+  | VwVec s => if acc =? 0 then runit (ms_get1 s i) else Panic PDoc
+  | VwPairs s => if acc =? 0 then runit (ms_get2 s i) else Panic PDoc
+  | VwBytes b | VwStr b => if acc =? 0 then runit (mb_get b i) else Panic PDoc
+  | VwRaw r => if acc =? 1 then runit (rm_word r i) else if acc =? 2 then runit (rm_bit r i) else Panic PDoc
+  | VwInt iv =>
+      if acc =? 1 then runit (rm_word (im_data iv) i)
+      else if acc =? 2 then runit (rm_bit (im_data iv) i)
+      else if acc =? 3 then runit (im_get_w m iv i) else Panic PDoc
+  | VwOpt o => match mo_data o with Some v' => touch_model m v' acc i | None => Panic PDoc end
+  end.
+
+Definition model_mview (m : mode) (file : list N) (ty : vtype) (o : N * mobs) : bool :=
+  let '(off, ob) := o in
+  match view_new m ty file off, ob with
+  | VOk v, MOk mo ml claimed _ touch =>
+      res_agree N.eqb (view_map_offset m v) mo && res_agree N.eqb (view_map_len m v) ml
+      && (claimed_of v =? claimed)
+      && forallb (fun t => match t with (acc, i, r) => res_agree unit_eqb (touch_model m v acc i) r end) touch
+  | VErr k, MErr c => ek_code k =? c
+  | VPanic k, MPanic c => pk_code k =? c
+  | VOOB _, MPanic c => c =? 9
+  | _, _ => false
+  end.
+
+(* spec side: element [off] of the file, when there is one *)
+Definition mp_get (l : list N) (i : N) : option N :=
+  if i <? N.of_nat (length l) then nth_error l (N.to_nat i) else None.
+
+(* the range a view of type t at offset off with the claimed data length lies inside a file: exact arithmetic;
+   whether an optional value is present is read from the file (size element 0 = absent) *)
+Fixpoint spec_inside (t : vtype) (file : list N) (off claimed : N) : bool :=
+  let n := N.of_nat (length file) in
+  match t with
+  | TyVec => off + 1 + claimed <=? n
+  | TyPairs => off + 1 + 2 * claimed <=? n
+  | TyBytes | TyStr => off + 1 + (claimed + 7) / 8 <=? n
+  | TyRaw => off + 2 + claimed <=? n
+  | TyInt => off + 4 + claimed <=? n
+  | TyOpt t' =>
+      match mp_get file off with
+      | None => false
+      | Some sz => if sz =? 0 then claimed =? 0 else spec_inside t' file (off + 1) claimed
+      end
+  end.
+
+Definition spec_mview (file : list N) (ty : vtype) (o : N * mobs) : bool :=
+  let '(off, ob) := o in
+  match ob with
+  | MOk mo ml claimed inside touch =>
+      inside && spec_inside ty file off claimed && not9 mo && not9 ml
+      && forallb (fun t => not9 (snd t)) touch
+  | MErr _ => true
+  | MPanic k => negb (k =? 9)
+  end.
+
+Definition model_mget (m : mode) (file : list N) (opt : bool) (off : N) (gets : list (N * ires unit)) : bool :=
+  match view_new m (if opt then TyOpt TyInt else TyInt) file off with
+  | VOk v => forallb (fun g => res_agree unit_eqb (touch_model m v 3 (fst g)) (snd g)) gets
+  | _ => false
+  end.
+
 Definition check (c : case) : N :=
   match c with
   | CBV path dbg sup len words calls =>
@@ -225,6 +333,19 @@ Definition check (c : case) : N :=
       code (forallb (model_icall (mkiv len width (mkraw rawlen words))) calls) (forallb spec_icall calls)
   | CMasks calls => code (forallb model_mask calls) (forallb spec_mask calls)
   | COther _ classes => code true (forallb (fun k => negb (k =? 9)) classes)
+  | CRawSet path dbg len words i v o calls =>
+      let sp := sp_of path in let m := mode_of dbg in
+      let st := raw_set_bit (mkraw len words) i v in
+      let r' := match st with Ok r' => r' | _ => mkraw len words end in
+      (* spec side: an offset at or beyond the length is refused (the invariant the unchecked scans rely on), and
+         nothing ends in the hook *)
+      code (res_agree unit_eqb (runit st) o && forallb (model_bcall sp m (bv_from_raw r')) calls)
+           ((if len <=? i then match o with IPanic _ => true | IOk _ => false end else true)
+            && not9 o && forallb spec_bcall calls)
+  | CMapped dbg file ty views =>
+      code (forallb (model_mview (mode_of dbg) file ty) views) (forallb (spec_mview file ty) views)
+  | CMGet dbg file opt off gets =>
+      code (model_mget (mode_of dbg) file opt off gets) (forallb (fun g => not9 (snd g)) gets)
   | CDied _ _ => 3
   end.
 
@@ -241,5 +362,16 @@ Definition explain (c : case) : list bool :=
   | CIV dbg len width rawlen words calls => map (model_icall (mkiv len width (mkraw rawlen words))) calls
   | CMasks calls => map model_mask calls
   | COther _ classes => map (fun k => negb (k =? 9)) classes
+  | CRawSet path dbg len words i v o calls =>
+      let st := raw_set_bit (mkraw len words) i v in
+      let r' := match st with Ok r' => r' | _ => mkraw len words end in
+      res_agree unit_eqb (runit st) o :: map (model_bcall (sp_of path) (mode_of dbg) (bv_from_raw r')) calls
+  | CMapped dbg file ty views =>
+      map (fun o => model_mview (mode_of dbg) file ty o && spec_mview file ty o) views
+  | CMGet dbg file opt off gets =>
+      match view_new (mode_of dbg) (if opt then TyOpt TyInt else TyInt) file off with
+      | VOk v => map (fun g => res_agree unit_eqb (touch_model (mode_of dbg) v 3 (fst g)) (snd g) && not9 (snd g)) gets
+      | _ => []
+      end
   | CDied _ _ => []
   end.
